@@ -44,3 +44,98 @@ def controlling_deps(ctx, body, bb):
     for (a, s) in g.transitive_control_branches(bb):
         out |= switch_deps(ctx, body, a)
     return out
+
+
+# ---- generic effect listing for a set of blocks ---------------------------------------------
+import re as _re
+from ..cfg import calls as _calls, callee_name as _callee_name
+from .mirflow import self_field_of as _sfo
+
+_ITER_PTR = _re.compile(r"^(core::slice::iter::Iter<|core::iter::|indexmap::set::iter::|indexmap::map::iter::|core::str::|alloc::collections::btree::map::Iter<)")
+_SHARED_EFFECT = _re.compile(r"(Handler::|comments::Comments::(add|take|move)|swc_common::Mark::new$)")
+
+
+def reads_index(mb):
+    out = {}
+
+    def note(o, bb):
+        if isinstance(o, dict):
+            if "l" in o and "s" in o:
+                out.setdefault(o["l"], set()).add(bb)
+                return
+            for v in o.values():
+                note(v, bb)
+        elif isinstance(o, list):
+            for v in o:
+                note(v, bb)
+    for blk in mb["blocks"]:
+        if blk.get("cleanup"):
+            continue
+        for s in blk["stmts"]:
+            if s["k"] == "assign":
+                note(s["rv"], blk["i"])
+        t = blk.get("term") or {}
+        if t.get("k") == "call":
+            note(t["args"], blk["i"])
+        elif t.get("k") == "switch":
+            note(t["discr"], blk["i"])
+    return out
+
+
+def effects_in(ctx, mb, blocks):
+    """effects located in `blocks`: list of dict(kind, bb, node, what, detail)
+    kinds: 'mutcall' (&mut argument), 'store' (through a reference), 'localcall', 'sharedeffect', 'escape' (non-bool local defined
+    here and read outside / returned), 'closure' (closure created here)"""
+    fl = flow_of(ctx, mb)
+    reads = reads_index(mb)
+    tys = {l["i"]: l["ty"] for l in mb["locals"]}
+    blocks = set(blocks)
+    out = []
+    for b in sorted(blocks):
+        blk = mb["blocks"][b]
+        if blk.get("cleanup"):
+            continue
+        for s in blk["stmts"]:
+            if s["k"] != "assign":
+                continue
+            lhs = s["lhs"]
+            if s["rv"].get("rk") == "agg" and s["rv"].get("agg") == "closure":
+                out.append({"kind": "closure", "bb": b, "node": s, "what": s["rv"]["def"], "ty": ""})
+            projs = lhs.get("p") or []
+            if "*" in projs or lhs.get("upvar"):
+                out.append({"kind": "store", "bb": b, "node": s, "what": lhs["s"], "ty": lhs.get("ty", ""),
+                            "fields": {f for f in _sfo(fl.place_sources(lhs))}})
+                continue
+            l = lhs["l"]
+            outside = reads.get(l, set()) - blocks
+            if (outside or l == 0) and tys.get(l, "") not in ("bool", "()"):
+                out.append({"kind": "escape", "bb": b, "node": s, "what": lhs["s"], "ty": tys.get(l, "")})
+        t = blk.get("term") or {}
+        if t.get("k") == "call":
+            name = _callee_name(t)
+            is_local = (mb["crate"], name) in ctx.facts.mir_by_path
+            for i, (a, ty) in enumerate(zip(t["args"], t.get("arg_tys", []))):
+                if ty.startswith("&mut ") and not _ITER_PTR.match(ty[5:]):
+                    out.append({"kind": "mutcall", "bb": b, "node": t, "what": name, "ty": ty,
+                                "fields": {f for f in _sfo(fl.op_sources(a))}})
+            if is_local:
+                out.append({"kind": "localcall", "bb": b, "node": t, "what": name, "ty": ""})
+            if _SHARED_EFFECT.search(name):
+                out.append({"kind": "sharedeffect", "bb": b, "node": t, "what": name, "ty": ""})
+            d = t["dest"]
+            outside = reads.get(d["l"], set()) - blocks
+            if (outside or d["l"] == 0) and not d.get("p") and tys.get(d["l"], "") not in ("bool", "()"):
+                out.append({"kind": "escape", "bb": b, "node": t, "what": "result of " + name, "ty": tys.get(d["l"], "")})
+    return out
+
+
+def dependent_blocks(g, test_blocks):
+    """blocks transitively control-dependent on any of test_blocks in CFG g"""
+    out = set()
+    tests = set(test_blocks)
+    for b in g.reach:
+        for (a, s) in g.transitive_control_branches(b):
+            if a in tests:
+                out.add(b)
+                break
+    return out
